@@ -233,6 +233,9 @@ Arguments Cache {B} _ _.
 Arguments cmem {B} _.
 Arguments cback {B} _.
 
+(** a CacheDB over [B] is itself a backend ("the write-caching wrapper (over any backend)") *)
+Definition cache_backend (B : backend) : backend := Backend (cache B) (cache_step B).
+
 (** Running an operation list, collecting results. *)
 Fixpoint run_ops {S : Type} (step : S → op → S * mres) (s : S) (ops : list op) : list mres :=
   match ops with
